@@ -56,12 +56,19 @@ func newSymRef(name string) *symRef {
 	}
 	r.b = &protocol.BlockRefBuilder{MessageType: r.typ, InstanceId: r.instance, BlockHeight: r.height, View: r.view, BlockHash: bh}
 	r.raw = r.b.Build().Raw()
-	if k := env.ParamOr("trailing", 0); k > 0 {
-		// a non-canonical encoding of the same header: k arbitrary extra bytes after the last field (the membuffers
-		// reader tolerates them); whoever signs this header signs exactly these bytes
-		raw := append(append([]byte{}, r.raw...), env.NondetBytes(name+"_trailing", k)...)
+	if k := env.ParamOr("trailing", 0); k != 0 {
+		// a non-canonical encoding of the same header: |k| arbitrary extra bytes after the last field (the membuffers
+		// reader tolerates them). k > 0: whoever signs this header signs exactly these bytes; k < 0: the signature is
+		// made over the canonical encoding (which is what a node that verifies canonically accepts)
+		n := k
+		if n < 0 {
+			n = -n
+		}
+		raw := append(append([]byte{}, r.raw...), env.NondetBytes(name+"_trailing", n)...)
 		r.b = protocol.BlockRefBuilderFromRaw(raw)
-		r.raw = raw
+		if k > 0 {
+			r.raw = raw
+		}
 	}
 	return r
 }
